@@ -102,7 +102,7 @@ def spot_events(optic, kind, obj, cfg, dist_pts, info, wl, pi):
         fields = [(0.0, float(h)) for h in np.linspace(0, 1, nfl)]
         farg = {"mode": "linspace", "list": [], "n": nfl}
     else:
-        fields = cfg.get("fields") or [(float(a), float(b)) for a, b in optic.fields.get_field_coords()]
+        fields = cfg.get("fields") or list(optic.fields.get_field_coords())      # the library's own tuples (dict keys are their repr)
         farg = f_arg(cfg.get("fields"))
     data = obj.data
     out = []
@@ -174,7 +174,7 @@ def ee_events(obj):
 # ---------------------------------------------------------------- ray fan / pupil aberration
 def fan_events(optic, obj, cfg, info, wl, pi):
     inuse = wl_in_use(wl, pi, cfg.get("wls"), "all")
-    fields = cfg.get("fields") or [(float(a), float(b)) for a, b in optic.fields.get_field_coords()]
+    fields = cfg.get("fields") or list(optic.fields.get_field_coords())      # the library's own tuples (dict keys are their repr)
     npts = cfg["npts"]
     n = npts + 1 if npts % 2 == 0 else npts
     P = np.linspace(-1, 1, n)
@@ -207,7 +207,7 @@ def fan_events(optic, obj, cfg, info, wl, pi):
 
 def pupil_events(optic, obj, cfg, info, wl, pi):
     inuse = wl_in_use(wl, pi, cfg.get("wls"), "all")
-    fields = cfg.get("fields") or [(float(a), float(b)) for a, b in optic.fields.get_field_coords()]
+    fields = cfg.get("fields") or list(optic.fields.get_field_coords())      # the library's own tuples (dict keys are their repr)
     npts = cfg["npts"]
     n = npts + 1 if npts % 2 == 0 else npts
     P = np.linspace(-1, 1, n)
